@@ -96,12 +96,15 @@ PROPS = {
                 "Non-trivial = a deletion of a present id removes >= 2 ids while >= 1 id survives. Distinct = distinct canonical JSON.",
         "assumptions": COMMON_ASSUMPTIONS + [
             "removing an id that is absent leaves ids naming it in deleteWith unspecified (the manual does not say whether a dangling target cascades); those ids are skipped until redefined",
-            "expiry-driven cascades are exercised by C07's virtual-time check, not here",
+            "expiry-driven cascades use C07's virtual-time histories (part expiry-cascade), read strictly: an item deleted by expiry takes its dependents with it whether or not anybody has looked before the id is written again",
         ],
         "parts": [
             {"name": "cascade", "mode": "plain", "test": "TestC08",
              "quick": {"checks": 2500, "shards": 4},
              "thorough": {"checks": 40000, "shards": 16}},
+            {"name": "expiry-cascade", "mode": "faketime", "test": "TestC08Expiry",
+             "quick": {"checks": 1500, "shards": 4},
+             "thorough": {"checks": 20000, "shards": 16}},
         ],
     },
     "C10": {
@@ -662,3 +665,4 @@ PROPS["C15"]["rule"] += " One schedule in eight of the sys.System part lies whol
 PROPS["C12"]["rule"] += " Facts carry a second property with one of two names, and `searchKind` requests search for one of them (such a search meets what overwritten and removed facts left behind in the term index)."
 PROPS["C17"]["rule"] += " The three concurrent parts also run under the race detector (create: both tiers; first-requests and wipe: thorough tier): any data race report naming rulio frames is a violation."
 PROPS["C10"]["rule"] += " Histories also add event rules that carry an empty (\"\" or null) `schedule` (which must fire like any event rule unless the add is refused) and send events that bring their own rule along (`evaluate!`), which run exactly that rule in an enabled location and are refused by a disabled one."
+PROPS["C08"]["rule"] += " A second part (expiry-cascade, virtual clock) runs the expiry histories of C07 - items with every expiry encoding, dependents d1 and dependent rule r2, observations around the expiry instant, reloads, clears, slow storage, state hooks - with the strict reading of deletion by expiry: when an expired item that nobody has looked at is written again, the dependents it had before its expiry instant are gone."
